@@ -269,7 +269,8 @@ def gen_sm_doc(r: random.Random, hi: int = 4, pipeline: dict | None = None) -> d
 def gen_sm_fmt(r: random.Random, knobs: dict) -> dict:
     return dict(newline=knobs.get("stored_newline", "lf"), lead_comment=r.random() < 0.3, bpms_multiline=r.random() < 0.4,
                 blank_after_header=r.random() < 0.8, chart_comment=r.random() < 0.8, indent=r.random() < 0.8,
-                measure_comments=r.random() < 0.5, blank_rows=r.random() < 0.3)
+                measure_comments=r.random() < 0.5, blank_rows=r.random() < 0.3, space_blank=r.random() < 0.3,
+                row_trailing_space=r.random() < 0.15)
 
 
 # ---------------------------------------------------------------- on-grid charts in beat space (C03, C05, C09 sources)
@@ -552,6 +553,14 @@ def gen_ojn_level(r: random.Random, n_meas: int, hi: int, tempo_on_measures=Fals
                 else:
                     ev[i] = [r.randint(1, 500), vol, pan, 0]
             pkgs.append([m, col + 2, ev])
+            if not open_ and not any(e and e[3] != 0 for e in ev) and r.random() < 0.15:
+                # a second package for the same measure and channel (objects overlay; no long note involved)
+                n2 = r.choice([3, 12] if tempo_on_measures else [3, 5, 7, 12])
+                ev2 = [0] * n2
+                i2 = r.randrange(n2)
+                if all(Fraction(i2, n2) != Fraction(j, len(ev)) for j, e in enumerate(ev) if e):
+                    ev2[i2] = [r.randint(1, 500), r.randrange(16), r.randrange(16), 0]
+                    pkgs.append([m, col + 2, ev2])
         if open_:
             pkgs.append([n_meas, col + 2, [[1, 0, 8, 3]] + [0] * r.choice([0, 1, 3])])
     # tempo events anywhere, also after the last note
